@@ -158,27 +158,118 @@ pub fn corpus(out: &mut Out, prop: &str) {
         sc(0, true, expire_gt(61)),            // repeated at the same instant: 0
         sc(0, true, Command::Pttl(k("k"))),
     ]);
+    // KEYS with a glob pattern (Model.RedisX = Redis' stringmatchlen): escapes and classes
+    run_scripted(out, prop, "keys-glob", vec![
+        sc(0, true, Command::set(k("a"), s("1"))),
+        sc(0, true, Command::set(k("b"), s("2"))),
+        sc(0, true, Command::set(k("c"), s("3"))),
+        sc(0, true, Command::set(k("a*"), s("4"))),
+        sc(0, true, Command::Keys("?".into())),
+        sc(0, true, Command::Keys("a*".into())),
+        sc(0, true, Command::Keys("[a-c]".into())),
+        sc(0, true, Command::Keys("[^a]".into())),
+        sc(0, true, Command::Keys("[c-a]".into())),
+        sc(0, true, Command::Keys("[ab".into())),
+        sc(0, true, Command::Keys("\\a".into())),
+        sc(0, true, Command::Keys("a\\*".into())),
+        sc(0, true, Command::Keys("[a\\-c]".into())),
+    ]);
+    run_scripted(out, prop, "bitmaps", vec![
+        sc(0, true, Command::SetBit(k("bm"), 7, 1)),
+        sc(0, true, Command::GetBit(k("bm"), 7)),
+        sc(0, true, Command::SetBit(k("bm"), 183, 1)),   // byte 22: the value is 23 bytes (SDS inline limit)
+        sc(0, true, Command::SetBit(k("bm"), 184, 1)),   // byte 23: 24 bytes
+        sc(0, true, Command::GetBit(k("bm"), 184)),
+        sc(0, true, Command::SetBit(k("bm"), 184, 0)),
+        sc(0, true, Command::StrLen(k("bm"))),
+        sc(0, true, Command::SetBit(k("bm"), 4294967296, 1)),
+        sc(0, true, Command::RPush(k("l"), vec![s("x")])),
+        sc(0, true, Command::SetBit(k("l"), 1, 1)),
+        sc(0, true, Command::BatchSet(vec![(k("bm"), s("v")), (k("l"), s("w"))])),
+        sc(0, true, Command::BatchGet(vec![k("bm"), k("l"), k("zz")])),
+    ]);
     run_scripted(out, prop, "setrange-check-order", vec![
         sc(0, true, Command::RPush(k("l"), vec![s("a")])),
         sc(0, true, Command::SetRange(k("l"), 1 << 40, s("x"))),
     ]);
 }
 
+/// every command that reads or writes an ABSOLUTE time, under every configuration of the executor's
+/// epoch fields (class "configuration": `simulation_start_epoch`, `simulation_start_epoch_ms`)
+pub fn epoch_corpus(out: &mut Out, prop: &str) {
+    for cfg in EPOCH_CONFIGS {
+        let unix = (BASE_MS + cfg.ms()) as i64;
+        let set = |key: &str, f: &dyn Fn(&mut Command)| {
+            let mut c = Command::set(k(key), s("v"));
+            f(&mut c);
+            c
+        };
+        let getex = |exat: Option<i64>, pxat: Option<i64>| Command::GetEx { key: k("g"), ex: None, px: None, exat, pxat, persist: false };
+        run_scripted_cfg(out, prop, "epoch-absolute-times", cfg, vec![
+            sc(0, true, set_px("k", "v", 5000)),
+            sc(0, true, Command::ExpireTime(k("k"))),
+            sc(0, true, Command::PExpireTime(k("k"))),
+            sc(0, true, set_px("h", "v", 1499)),
+            sc(0, true, Command::ExpireTime(k("h"))),
+            sc(0, true, set_px("i", "v", 1500)),
+            sc(0, true, Command::ExpireTime(k("i"))),
+            sc(0, true, Command::set(k("e"), s("v"))),
+            sc(0, true, Command::ExpireAt(k("e"), unix / 1000 + 10)),
+            sc(0, true, Command::Pttl(k("e"))),
+            sc(0, true, Command::ExpireTime(k("e"))),
+            sc(0, true, Command::PExpireAt(k("e"), unix + 777)),
+            sc(0, true, Command::Pttl(k("e"))),
+            sc(0, true, Command::PExpireTime(k("e"))),
+            sc(0, true, set("x", &|c| if let Command::Set { exat, .. } = c { *exat = Some(unix / 1000 + 3) })),
+            sc(0, true, Command::Pttl(k("x"))),
+            sc(0, true, set("y", &|c| if let Command::Set { pxat, .. } = c { *pxat = Some(unix + 1234) })),
+            sc(0, true, Command::Pttl(k("y"))),
+            sc(0, true, Command::PExpireTime(k("y"))),
+            sc(0, true, Command::set(k("g"), s("v"))),
+            sc(0, true, getex(Some(unix / 1000 + 2), None)),
+            sc(0, true, Command::Pttl(k("g"))),
+            sc(0, true, getex(None, Some(unix + 1))),
+            sc(0, true, Command::Pttl(k("g"))),
+            // exactly now / one ms ago: the key is gone
+            sc(0, true, Command::PExpireAt(k("y"), unix)),
+            sc(0, true, Command::Exists(vec![k("y")])),
+            sc(0, true, Command::ExpireAt(k("x"), unix / 1000)),
+            sc(0, true, Command::Exists(vec![k("x")])),
+            // the range check of EXPIRE adds the Unix now
+            sc(0, true, Command::Expire { key: k("k"), seconds: (i64::MAX - unix) / 1000, nx: false, xx: false, gt: false, lt: false }),
+            sc(0, true, Command::Expire { key: k("k"), seconds: (i64::MAX - unix) / 1000 + 1, nx: false, xx: false, gt: false, lt: false }),
+            sc(1000, true, Command::Ttl(k("e"))),
+            sc(0, true, Command::ExpireTime(k("e"))),
+        ]);
+    }
+}
+
 pub fn run(a: &Args) {
     let mut out = Out::new(&a.out);
     let mut rng = Rng::new(a.seed);
     corpus(&mut out, "C01");
+    epoch_corpus(&mut out, "C01");
+    // the data structures behind the commands, driven directly (`DS …` lines); its own stream, so
+    // that the command sequences below are the same as without it
+    let mut drng = Rng::new(a.seed ^ 0xD5);
+    crate::datax::run(&mut out, &mut drng, a.n);
     for _ in 0..a.n {
         run_random_sequence(&mut out, &mut rng, "C01", &gen_cmd, 10);
     }
+    // history shapes: a few long runs on one executor
+    for _ in 0..(a.n / 1500).clamp(2, 40) {
+        run_random_sequence_len(&mut out, &mut rng, "C01", &gen_cmd, 3, Some(1500));
+    }
     crate::boundary::boundary_pass(&mut out, &mut rng, "C01", (a.n / 1000).clamp(2, 20));
     crate::boundary::coverage_table(&mut out);
+    report_executor_api(&mut out, "C01");
+    out.extra.insert("audit".into(), audit_c01());
     out.extra.insert("families_covered".into(), serde_json::json!(FAMILIES));
     out.extra.insert("not_in_command_enum".into(), serde_json::json!(NOT_IN_ENUM));
-    out.finish("case = one sequence of 1..60 commands (strings, counters, keys, expiry, lists, sets, hashes, sorted sets over 5 colliding keys; clock moved between commands by 0 / 1 ms / random / exactly-the-deadline / one-ms-before / one-after, through set_time or update_time_readonly) run on a fresh real CommandExecutor; after every command the reply and the whole visible keyspace are compared with the Lean reference model; distinct by the op text of the whole sequence; non-trivial iff at least one command changed the visible keyspace and at least one reply was neither an error nor nil/0/empty");
+    out.finish("case = one sequence of 1..60 commands (strings, counters, keys, expiry, lists, sets, hashes, sorted sets over 5 colliding keys; clock moved between commands by 0 / 1 ms / random / exactly-the-deadline / one-ms-before / one-after, through set_time or update_time_readonly) run on a fresh real CommandExecutor; after every command the reply and the whole visible keyspace are compared with the Lean reference model; distinct by the op text of the whole sequence; non-trivial iff at least one command changed the visible keyspace and at least one reply was neither an error nor nil/0/empty; plus (harness/src/datax.rs) one case per operation sequence on a real RedisSortedSet / RedisList / SDS (DS lines: every answer and, after every mutating sorted-set op, the whole skip-list structure compared with the transcription models), non-trivial iff the structure held >= 2 elements at some point and a read returned a non-empty answer (SDS: the sequence crossed the 23-byte boundary or has more than 3 ops)");
 }
 
-pub const FAMILIES: [&str; 8] = [
+pub const FAMILIES: [&str; 9] = [
     "strings: GET SET(NX XX GET KEEPTTL EX PX EXAT PXAT) SETNX SETEX(=SET EX) APPEND GETSET STRLEN MGET MSET MSETNX GETRANGE SETRANGE GETEX GETDEL",
     "counters: INCR DECR INCRBY DECRBY",
     "keys: DEL EXISTS TYPE KEYS(*) DBSIZE FLUSHDB FLUSHALL RANDOMKEY RENAME RENAMENX SORT [STORE] (default numeric form, integer elements)",
@@ -187,11 +278,11 @@ pub const FAMILIES: [&str; 8] = [
     "sets: SADD SREM SMEMBERS SISMEMBER SCARD SPOP [count] (SPOP validated as a relation)",
     "hashes: HSET HGET HDEL HGETALL HKEYS HVALS HLEN HEXISTS HINCRBY",
     "sorted sets: ZADD (NX XX GT LT CH) ZREM ZRANGE ZREVRANGE [WITHSCORES] ZSCORE ZRANK ZCARD ZCOUNT ZRANGEBYSCORE [WITHSCORES] [LIMIT] — integral scores |x| < 2^53 and ±inf only; float formatting excluded",
+    "Model.RedisX: SETBIT GETBIT, internal BatchSet BatchGet, KEYS <glob pattern>; Redis.stepScript: EVAL of straight-line redis.call sequences over the commands the Lua translator knows",
 ];
-pub const NOT_IN_ENUM: [&str; 6] = [
+pub const NOT_IN_ENUM: [&str; 5] = [
     "PSETEX (no Command variant; SETEX is parsed into SET EX)",
     "EXPIREAT/PEXPIREAT NX|XX|GT|LT (variants carry no flags)",
-    "KEYS with a pattern other than * (glob matching not modelled)",
     "ZINCRBY ZREVRANK ZREVRANGEBYSCORE ZRANGEBYLEX ZPOPMIN/MAX ZUNIONSTORE …, ZADD INCR (no Command variant / flag)",
     "SRANDMEMBER SUNION SINTER SDIFF SMOVE …, HMGET HSETNX HINCRBYFLOAT HSTRLEN … (no Command variant)",
     "LREM LINSERT LPUSHX RPUSHX LPOP/RPOP with count, LPOS, BLPOP … (no Command variant)",
